@@ -72,12 +72,13 @@ CLAIMED["C01"] = dict(
     "alignment, cross-parent moves, inserts in BFS order, attribute rename / update / insert / delete phases, the delete phase). "
     "(3) the differ itself never raises (C01_differ_completes: every path lookup succeeds, find_pos finds the in-order sibling's "
     "partner and its parent, no node is moved into its own subtree, the delete phase finds every node it deletes) - together "
-    "C01_roundtrip, with no 'whenever it completes' hypothesis. PARTIAL: namespaced documents are outside the model (oracle "
-    "stream only). Models are tied to the code by units U1 U2 U4 U5 and the end-to-end comparison; "
+    "C01_roundtrip, with no 'whenever it completes' hypothesis. The theorems hold for every assignment of path-step names to tags, which covers namespaced documents; model and code are "
+    "compared on namespaced pairs too (stream nsm). PARTIAL: the namespace prologue (InsertNamespace / DeleteNamespace, prefix "
+    "registration) is outside the model (oracle stream ns). Models are tied to the code by units U1 U2 U4 U5 and the end-to-end comparison; "
     "the round-trip oracle compares patch_tree(diff_trees(L,R),L) with R on the real code.",
     note="Trusted: Lean kernel and standard axioms; hand-written models of Differ.match/diff and Patcher validated by "
-    "differential execution on every run, not proved; similarity values are an oracle; namespace-free documents only "
-    "in the model (namespaced documents: oracle stream only).",
+    "differential execution on every run, not proved; similarity values are an oracle; for namespaced documents the step name of a tag "
+    "is the prefix the working copy uses for its URI, prefix registration is not modelled.",
     technique="Lean 4 proof (script-generation invariant by induction over the BFS loop, simulation of patcher against differ "
     "working copy, tree-surgery lemmas) + model/code differential correspondence + round-trip oracle",
     design="DESIGN.md section 6, C01",
@@ -124,7 +125,7 @@ CLAIMED["C18"] = dict(
     "semantics is proved for addressing and attribute preconditions (C04/C05) and checked per run for positions by the strict "
     "replay. The model is tied to the code by unit U11 (formatter output compared on real differ scripts); the property itself "
     "is decided on the real code through diff_trees/diff_texts with the formatter and through xmldiff -f old.",
-    note="Trusted: Lean kernel and standard axioms; model validated by U11 on every run; namespace-free documents in the model.",
+    note="Trusted: Lean kernel and standard axioms; model validated by U11 on every run, on namespaced documents as well (prefix registration not modelled).",
     technique="Lean 4 proof (totality under the strict semantics) + model/code differential correspondence + totality oracle",
     design="DESIGN.md section 6, C18",
 )
